@@ -44,6 +44,13 @@ func (w *recWriter) WriteHeader(c int) {
 	if w.wrote {
 		return
 	}
+	if c >= 100 && c <= 199 && c != 101 {
+		// an interim response does not consume the final header (as on a real server connection)
+		h := w.hdr.Clone()
+		delete(h, "Date")
+		w.evs = append(w.evs, fmt.Sprintf("interim:%d:%s", c, vh.CanonHeader(h)))
+		return
+	}
 	w.wrote = true
 	w.code = c
 	w.head = w.hdr.Clone()
@@ -71,6 +78,8 @@ func play(w http.ResponseWriter, ops []hop) {
 			w.Header().Set(o.k, o.v)
 		case "A":
 			w.Header().Add(o.k, o.v)
+		case "D":
+			w.Header().Del(o.k)
 		case "H":
 			w.WriteHeader(o.code)
 		case "W":
@@ -85,6 +94,8 @@ func encOps(ops []hop) string {
 		switch o.kind {
 		case "S", "A":
 			parts = append(parts, o.kind+":"+vh.Hex([]byte(http.CanonicalHeaderKey(o.k)))+":"+vh.Hex([]byte(o.v)))
+		case "D":
+			parts = append(parts, "D:"+vh.Hex([]byte(http.CanonicalHeaderKey(o.k))))
 		case "H":
 			parts = append(parts, fmt.Sprintf("H:%d", o.code))
 		case "W":
@@ -144,6 +155,10 @@ func suiteBanner(e *vh.Env) {
 		status := rng.Pick([]string{"200", "200", "200", "200", "200", "200", "200", "201", "204", "301", "404", "500"})
 		var code int
 		fmt.Sscan(status, &code)
+		if rng.Chance(12) {
+			// what ReverseProxy does with a backend's 103: set its fields, WriteHeader(103), remove them again
+			ops = append(ops, hop{kind: "S", k: "Link", v: "</s.css>; rel=preload"}, hop{kind: "H", code: 103}, hop{kind: "D", k: "Link"})
+		}
 		if rng.Chance(80) {
 			ops = append(ops, hop{kind: "H", code: code})
 		}
@@ -178,7 +193,7 @@ func suiteBanner(e *vh.Env) {
 		target := method == "GET" && strings.Contains(accept, "text/html") && plain.wrote && plain.code == 200
 		if target {
 			for _, cd := range plain.head["Content-Disposition"] {
-				if strings.Contains(cd, "attachment") {
+				if strings.Contains(strings.ToLower(cd), "attachment") { // disposition types are case-insensitive (RFC 6266)
 					target = false
 				}
 			}
